@@ -363,6 +363,27 @@ def verify (s : St) (n : Name) (h : Height) (member : Bool) (proof : String) : O
       | some k => if k.ty ≠ t then some false else if c.latest.h - h.h < c.delay then some false else some member
       | none => some false
 
+/-! ### the stateless stage of `MsgUpdateClient` for a Tendermint header: the free-form fields -/
+
+/-- lengths of the free-form fields of an otherwise well-formed, correctly signed Tendermint header -/
+structure TmHeaderShape where
+  appHash : Nat
+  data : Nat
+  evidence : Nat
+  lastResults : Nat
+  proposer : Nat
+  deriving Repr
+
+/-- tendermint `ValidateHash`: empty or 32 bytes -/
+def hashLenOk (n : Nat) : Bool := n == 0 || n == 32
+
+/-- `MsgUpdateClient.ValidateBasic` → `Header.ValidateBasic` → tendermint `SignedHeader.ValidateBasic`: data, evidence
+    and last-results hash are empty or 32 bytes, the proposer address has 20 bytes; "AppHash is arbitrary length" —
+    the stateless stage does not look at it (an EMPTY one is refused later, by `CheckHeaderAndUpdateState`: the
+    consensus state it yields has no root) -/
+def tmHeaderStateless (h : TmHeaderShape) : Bool :=
+  hashLenOk h.data && hashLenOk h.evidence && hashLenOk h.lastResults && h.proposer == 20
+
 /-! ### histories -/
 inductive Op
   | time (ns : Nat)
